@@ -180,6 +180,11 @@ def compare(ctx, case, db, recs, lines, voted, text, what="after import"):
         return False
     for i, (f, rec, line) in enumerate(zip(feats, recs, lines)):
         ctx.mon("stored features compared")
+        try:
+            str(f), list(f.extra), [list(f.attributes[k]) for k in f.attributes.keys()]
+        except Exception as ex:
+            ctx.violation(case, {"why": "%s: line %d: reading the stored feature back raised %r" % (what, i, ex), "line": line, "text": text})
+            return False
         exp = R.expected_columns(rec)
         got = {k: getattr(f, k) for k in exp}
         if got != exp or list(f.extra) != list(rec["extra"]):
